@@ -39,7 +39,7 @@ def first_solid(vmf: VMF) -> Solid:
 def first_disp(vmf: VMF, power: int = 1) -> Side:
     for s in vmf.brushes:
         for f in s.sides:
-            if f.is_disp:
+            if f.disp_power > 0:       # own test, not the library's is_disp
                 return f
     return add_disp(vmf, power)
 
@@ -485,7 +485,7 @@ def obs_side(f: Side, multiblend: bool = True) -> dict:
         'points': None if f.strata_points is None else [cvec(p) for p in f.strata_points],
         'disp_power': f.disp_power,
     }
-    if f.is_disp:
+    if f.disp_power > 0:       # own test, not the library's is_disp
         d['disp_pos'] = cvec(f.disp_pos)
         d['disp_elevation'] = C(f.disp_elevation)
         d['disp_flags'] = f.disp_flags.value
